@@ -96,7 +96,7 @@ def signature(f, c):
     return '%s|%s|%s|%s' % (f['kind'], d.get('phase', d.get('path', '')), d.get('queries', ''), case_text(c)[:300])
 
 
-def run_cases(chk, cases, tag, variant='seq', jobs=12, timeout=1500):
+def run_cases(chk, cases, tag, variant='seq', jobs=12, timeout=900):
     """cases: list of dicts.  Returns (n_run, n_nontrivial)."""
     work = '%s/work/%s' % (vf.BUILD, chk.pid)
     os.makedirs(work, exist_ok=True)
@@ -104,6 +104,8 @@ def run_cases(chk, cases, tag, variant='seq', jobs=12, timeout=1500):
     texts = [json.dumps(c) for c in cases]
     results, crashes = progfam.pdrive(variant, args, texts, work, tag + variant, timeout, jobs)
     nontrivial = sum(1 for r in results.values() if r.get('nontrivial', 0) > 0)
+    if len(results) < len(cases) and not crashes:
+        raise vf.ToolError('driver gave no verdict for %d of %d cases (%s)' % (len(cases) - len(results), len(cases), tag))
     failing = []
     for i, r in sorted(results.items()):
         for f in r['fail']:
